@@ -300,6 +300,10 @@ func (e *ExecutionConfig) setProposerConfigOptions(_ context.Context,
 	}
 	// Add new relays.
 	for address, proposerRelayConfig := range proposerConfig.Relays {
+		if proposerRelayConfig.Disabled {
+			// A disabled relay is never used, whether or not it was inherited.
+			continue
+		}
 		if _, alreadyUpdated := updated[address]; !alreadyUpdated {
 			relays = append(relays, e.generateRelayConfig(address, proposerConfig, proposerRelayConfig, fallbackFeeRecipient, fallbackGasLimit))
 		}
